@@ -157,8 +157,8 @@ props["C20"] = dict(title="In the REPL a failed line never affects later lines; 
 # ---------------- C07: union of panic obligations ----------------
 props["C07"] = dict(title="No program can make the interpreter terminate abnormally",
   bounds="every panic obligation (index/slice bounds, nil dereference, failed type assertion, comparing uncomparable values, negative shift count, nil map write, integer division by zero, explicit panic) met on every path of every harness of every other property at its quick (thorough) bound",
-  assumptions=["unbounded user recursion ends in a host stack overflow: excluded by the property's domain", "allocation failure and faults inside stubbed library code are outside"],
-  quick=[], thorough=[], panics_only=True, include=[p for p in ["C01","C02","C03","C04","C05","C06","C08","C09","C10","C11","C12","C14","C15","C16","C17","C18","C19","C20"]])
+  assumptions=["unbounded user recursion ends in a host stack overflow: excluded by the property's domain", "fmt on a self-containing slice/map is modelled as what it is: unbounded recursion ending in a runtime abort (VH_cyclic)", "allocation failure and faults inside stubbed library code are outside"],
+  quick=[J(I,"VH_cyclic",w) for w in range(4)], thorough=[J(I,"VH_cyclic",w) for w in range(4)], panics_only=True, include=[p for p in ["C01","C02","C03","C04","C05","C06","C08","C09","C10","C11","C12","C14","C15","C16","C17","C18","C19","C20"]])
 
 json.dump(props, open("/verif/harness/jobs.json","w"), indent=1, ensure_ascii=False)
 print("jobs.json written:", {k:(len(v["quick"]),len(v.get("thorough",[]))) for k,v in props.items()})
